@@ -25,6 +25,7 @@ import z3
 class _State:
     def __init__(self):
         self.side = []  # side constraints: definitions of auxiliary variables (sqrt, exp, ...)
+        self.congr = []  # Ackermann congruence constraints (only added to a query when the cheap attempt is not unsat)
         self.cnt = itertools.count()
         self.dual_n = 0  # >0: elements are Dual numbers with that many tangents
         self.exps = {}  # Ackermannised transcendental applications: (fname,key) -> (var, arg)
@@ -308,7 +309,7 @@ def _uf(fname, x, positive=False):
         # congruence with all earlier applications of the same function
         for (f2, _), (v2, x2) in ST.exps.items():
             if f2 == fname:
-                ST.side.append(z3.Implies(x2 == xs, v2 == v))
+                ST.congr.append(z3.Implies(x2 == xs, v2 == v))
         ST.exps[key] = (v, xs)
         if positive:
             ST.side.append(v > 0)
@@ -1584,7 +1585,7 @@ def _equal(a, b):
 # factory patching: float tensors created inside the code under test become symbolic containers
 # ----------------------------------------------------------------------------------------------
 
-_REAL = {n: getattr(torch, n) for n in ("empty", "zeros", "ones", "full", "eye", "tensor", "as_tensor", "is_tensor")}
+_REAL = {n: getattr(torch, n) for n in ("empty", "zeros", "ones", "full", "eye", "tensor", "as_tensor", "is_tensor", "zeros_like", "ones_like", "empty_like", "full_like")}
 _FLOAT = (None, torch.float64, torch.float32, torch.float16)
 
 
@@ -1652,6 +1653,23 @@ class symbolic_factories:
         def is_tensor(x):
             return isinstance(x, (torch.Tensor, SymTensor))
 
+        def mk_like(name, fill):
+            def f(x, *a, dtype=None, **kw):
+                if isinstance(x, SymTensor):
+                    if name == "full_like":
+                        return _like(x, a[0], dtype=dtype)
+                    return _like(x, fill, dtype=dtype)
+                dt = dtype or x.dtype
+                if dt in (torch.float64, torch.float32, torch.float16):
+                    return SymTensor(_full(tuple(x.shape), a[0] if name == "full_like" else fill))
+                return R[name](x, *a, dtype=dtype, **kw)
+
+            return f
+
+        torch.zeros_like = mk_like("zeros_like", 0)
+        torch.ones_like = mk_like("ones_like", 1)
+        torch.empty_like = mk_like("empty_like", 0)
+        torch.full_like = mk_like("full_like", None)
         torch.empty = mk("empty", 0)
         torch.zeros = mk("zeros", 0)
         torch.ones = mk("ones", 1)
